@@ -52,7 +52,7 @@ NSH = 32
 def describe(tier):
     b = BOUNDS[tier]
     return dict(
-        rule='Numbering: skeletons with (elements, groups, repeaters) in %s x all kind assignments from %s, syntaxes html and pug, '
+        rule='Numbering: skeletons with (elements, groups, repeaters) in %s x all kind assignments from %s, syntaxes html, pug and haml, '
              'format off / on / on with formatLeafNode / off with comments enabled. Positions: skeletons in %s x kinds %s x syntaxes %s x all 18 combinations of newline {\\n, \\r\\n, \\r} x indent '
              '{tab, 4 spaces} x baseIndent {"", 2 spaces, 2 tabs} x output.text identity / wrapping variant, plus %d wrap-text '
              'abbreviations with 2 lines and %d stylesheet abbreviations in %s. Transition = one production / one option toggle.' % (
@@ -208,7 +208,7 @@ def run_shard(shard, ctx, tier):
         for idx, (seq, labels) in enumerate(cases_num(tier)):
             if idx % of != k:
                 continue
-            for syntax in ('html', 'pug'):
+            for syntax in ('html', 'pug', 'haml'):
               for fi in range(len(NUM_FORMATS)):
                 ctx.tick((seq, labels, syntax))
                 ctx.states += 1
